@@ -192,7 +192,7 @@ def mutants(rq, rng):
                     break
     _walk(m["decls"], f4)
     if hit:
-        out.append(("arg-replaced-by-string", "", m))
+        out.append(("arg-replaced-by-string", None, m))   # not strict: the parameter may have the top type
     # 5. an implemented abstract function loses its body in a regular class -> handled by 'result'? skip
     return out
 
@@ -251,7 +251,9 @@ def check_programs(run, specs, label, mutate_every=0):
     t0 = time.time()
     answers = run_driver_sharded(rqs) if rqs else []
     # decision point gen_conditional: recorded folds vs the Lean model (one driver batch for all programs)
-    notupper = check_folds(run, [(sp, r.get("plugins", {}).get("c01_plugin")) for sp, key, r in metas])
+    plouts = [(sp, r.get("plugins", {}).get("c01_plugin")) for sp, key, r in metas]
+    notupper = check_folds(run, plouts)
+    check_genvar(run, plouts)
     run.log("%s: %d programs judged by check.wt in %.0fs" % (label, len(rqs), time.time() - t0))
     javac_cache = {}
     accepted = []
@@ -289,6 +291,9 @@ def check_programs(run, specs, label, mutate_every=0):
             if "error" in a:
                 raise common.HarnessError("driver error on mutant %s: %s" % (lab, a["error"][:300]))
             killed = a["r"] != "ok" and (not tag or any(f[1].startswith(tag) for f in a["fail"]))
+            if tag is None:
+                run.tally("mutants", "%s:%s" % (lab, "rejected" if killed else "accepted (may be well-typed)"))
+                continue
             run.tally("mutants", "%s:%s" % (lab, "rejected" if killed else "ACCEPTED"))
             if not killed:
                 run.broken.append({"obligation": "negative control " + lab, "detail": "ill-typed mutant accepted"})
@@ -309,6 +314,54 @@ def run_driver_sharded(rqs, shards=6):
     return ans
 
 
+def check_genvar(run, plugin_outputs):
+    """recorded calls of `gen_variable` against the model `genVariableCandidates` (refinement: a returned variable is
+    one of the model's candidates; the fall-back branch is taken only when the model has none).  A differing call is
+    judged by the specification-side decider: a returned variable whose type is not declaratively assignable to the
+    expected type is a failing input of the property, otherwise only the correspondence is broken."""
+    extra = [list(p) for p in export.extra_assignable_table()]
+    rqs, owner = [], []
+    for i, (sp, pl) in enumerate(plugin_outputs):
+        if not pl or "error" in pl:
+            continue
+        run.cov["gen_variable_calls_total"] = run.cov.get("gen_variable_calls_total", 0) + pl.get("genvar_n", 0)
+        for g in pl.get("genvar", []):
+            rqs.append({"op": "check.genvar", "tt": pl["genvar_tt"], "extra": extra, "vars": g["vars"],
+                        "etype": g["etype"], "sub": g["sub"], "jl": g["jl"], "out": g["out"]})
+            owner.append((sp, pl, g))
+    if not rqs:
+        return
+    ans = run_driver_sharded(rqs)
+    reported = 0
+    for (sp, pl, g), a in zip(owner, ans):
+        if "error" in a:
+            raise common.HarnessError("driver error on gen_variable call: %s" % a["error"][:300])
+        branch = "fallback" if g["out"] is None else "variable"
+        run.tally("gen_variable_calls", "%s:%s%s:%s" % (branch, "subtype" if g["sub"] else "exact",
+                                                         ":java-lambda" if g["jl"] else "",
+                                                         "refines" if a["r"]["ok"] else "DIFFERS"))
+        if a["r"]["ok"] or reported >= 3:
+            continue
+        reported += 1
+        rp = {"replay": replay_key(sp), "call": {k: g[k] for k in ("etype", "sub", "jl", "out")},
+              "vars": g["vars"], "model_candidates": a["r"]["cands"], "tt": pl["genvar_tt"],
+              "correspondence": "gen_variable vs genVariableCandidates"}
+        judged = None
+        if g["out"] is not None:
+            v = [x for x in g["vars"] if x["name"] == g["out"]]
+            if v:
+                base = add_bt({"lang": sp["lang"], "tt": pl["genvar_tt"], "decls": []})
+                j = common.run_driver([dict(base, op="check.subd", s=v[0]["t"], t=g["etype"])])[0]
+                judged = j.get("r")
+        if judged is False:
+            run.violation(dict(rp, kind="failing-input", what="gen_variable returned variable %r whose type is not "
+                               "assignable to the expected type (specification-side decider)" % g["out"]),
+                          signature="gen_variable:returned-variable-not-assignable")
+        else:
+            run.violation(dict(rp, kind="broken-correspondence", judged_assignable=judged),
+                          signature="gen_variable:model-differs", no_input=True)
+
+
 def check_folds(run, plugin_outputs):
     """recorded folds of `gen_conditional` against the model `condType`; returns {program index: number of folds
     whose result is not an upper bound of both branch types}"""
@@ -319,8 +372,11 @@ def check_folds(run, plugin_outputs):
         if "error" in pl:
             raise common.HarnessError("c01_plugin failed on %s: %s" % (replay_key(sp), pl["error"]))
         for f in pl.get("folds", []):
-            rqs.append({"op": "check.condtype", "tt": pl["tt"], "tmp": f["tmp"], "t": f["t"], "f": f["f"],
-                        "expect": f["out"]})
+            rq = {"op": "check.condtype", "tt": pl["tt"], "tmp": f["tmp"], "t": f["t"], "f": f["f"],
+                  "expect": f["out"]}
+            if "final" in f:
+                rq["etype"], rq["final"] = f["etype"], f["final"]
+            rqs.append(rq)
             owner.append((i, sp, f))
     notupper = {}
     if not rqs:
@@ -331,7 +387,18 @@ def check_folds(run, plugin_outputs):
             raise common.HarnessError("driver error on fold: %s" % a["error"][:300])
         run.tally("gen_conditional_folds", "agree" if a["r"]["same"] is True else "differ")
         run.tally("gen_conditional_fold_upper", "upper-bound" if a["r"]["upper"] else "not-upper-bound")
-        if not a["r"]["upper"]:
+        if "final_is" in a["r"]:
+            # the type recorded in the Conditional follows the fold (tree as is) or the repaired fold
+            # (fixes/C01-cond-recorded-type.diff); "both" when the fold result was an upper bound
+            run.tally("gen_conditional_recorded_type", a["r"]["final_is"])
+            if a["r"]["final_is"] == "neither":
+                run.violation({"kind": "broken-correspondence", "replay": replay_key(sp), "fold": f, "model": a["r"],
+                               "correspondence": "type recorded by gen_conditional vs condType / condTypeFixed"},
+                              signature="condType:recorded-type-follows-neither-model", no_input=a["r"]["final_upper"])
+            bad = not a["r"]["final_upper"]
+        else:
+            bad = not a["r"]["upper"]
+        if bad:
             notupper[i] = notupper.get(i, 0) + 1
         if a["r"]["same"] is not True:
             run.violation({"kind": "broken-correspondence", "correspondence": "gen_conditional fold vs condType",
